@@ -181,4 +181,14 @@ def default_search(mod, ctx):
             continue
         if r.get('violations'):
             return r['violations'][:3]
+    # (3) a few LARGE cases with plain-Python oracles (search for a replay only, see search_scale.py)
+    try:
+        import search_scale
+        found = search_scale.search(pid, ctx['seed'] % 1000 + 1)
+        for v in found:
+            v.setdefault('replay', {'module': 'search_scale', 'func': 'search', 'args': [pid, ctx['seed'] % 1000 + 1]})
+        return found[:3]
+    except Exception:  # noqa
+        import traceback
+        traceback.print_exc()
     return []
